@@ -113,12 +113,12 @@ def streams(seed, tier):
     from gen import stepgen
     from gen.stategen import state as mk_state
     st_cases = []
-    EXTRA = ["INTEGER.SQUARE", "HOST.PROBE", "SQ", "X", "tick", "7UP"]
+    EXTRA = ["INTEGER.SQUARE", "HOST.PROBE", "SQ", "X", "tick", "7UP", "INF", "NAN", "inf", "42", "1e3", "-7", "TRUE", "1.5"]
     for k in range({"quick": 1500, "thorough": 15000, "search": 6000}[tier]):
         st = stepgen.rand_state(rng, names, some, maxdepth=3)
         extra = rng.sample(EXTRA, rng.choice([0, 0, 1, 2, 3]))
         bound = [b[0] for b in st["bind"]]
-        vocab = some + [rng.choice(names)] + extra + bound + bound + ["X", "SQ", "INTEGER.SQUARE"]
+        vocab = some + [rng.choice(names)] + extra + extra + bound + bound + ["X", "SQ", "INTEGER.SQUARE", "INF", "42", "TRUE", "1.5", "nan"]
         toks = G.rand_tok_tree(rng, vocab, rng.randrange(0, 4), rng.randrange(0, 25))
         toks = [t if rng.random() < 0.7 else rng.choice(vocab) for t in toks if t not in ("(", ")")] if rng.random() < 0.3 else toks
         text = G.join_ws(rng, toks, k % 3 != 0)
